@@ -254,6 +254,7 @@ impl Property for C15 {
             replicate: false,
             crash: false,
             ops: false,
+            damaged_sync: false,
             verifiable: true,
             requests_per_client: 1 + ctx.ch.index(2),
             inputs: inputs(ctx),
